@@ -82,7 +82,7 @@ def is_symplectic(name):
     return bool(getattr(get(name), "symplectic", False))
 
 
-DTYPES = {"float32": np.float32, "float64": np.float64, "longdouble": np.longdouble}
+DTYPES = {"float32": np.float32, "float64": np.float64, "longdouble": np.longdouble, "float16": np.float16}
 
 
 def wider(dtname):
